@@ -1,6 +1,10 @@
+mod alloctrack;
 mod c03;
 mod c12;
 mod c16;
+
+#[global_allocator]
+static ALLOC: alloctrack::Tracking = alloctrack::Tracking;
 
 fn arg(n: usize, d: usize) -> usize {
     std::env::args().nth(n).and_then(|s| s.parse().ok()).unwrap_or(d)
